@@ -458,6 +458,20 @@ impl<C: Context> Package<Ctx<C>> {
 }
 
 #[cfg(feature = "verif-hooks")]
+impl<Ctx: OptCtx> LoweredToLir<'_, Ctx> {
+    /// Evaluate the function `pkg.<name>` with the IR evaluator.
+    pub(crate) fn verif_eval_named(
+        &self,
+        name: &str,
+        mem: &mut Memory,
+        ctx: IrValue,
+        args: Vec<IrValue>,
+    ) -> Option<IrValue> {
+        eval::eval(&self.runtime.rt, &self.ir.functions, name, mem, ctx, args)
+    }
+}
+
+#[cfg(feature = "verif-hooks")]
 impl RotoReport {
     /// Every location this report cites: `(file index, start, end)` in bytes.
     pub fn verif_locations(&self) -> Vec<(usize, usize, usize)> {
